@@ -32,6 +32,7 @@ def run(repo: Repo, tier: str, res: CheckResult, seed: int = 0) -> None:
     recipe_tail(repo, res)
     generic_shapes(repo, res)
     _shared_cache_rule(repo, res)
+    unresolved_annotations_refused(repo, res)
     from .. import genprog
     genprog.c14_checks(repo, tier, res, seed)
     # the refusal of unlinked fields observed on compiler output (converter pipeline family and oracle shared with C13)
@@ -391,3 +392,31 @@ def _shared_cache_rule(repo: Repo, res: CheckResult) -> None:
         if "conversion/" in f.file:
             res.add(Finding("C14", "FACADE.refusal-bypassed-by-shared-cache", f.file, f.qualname, f.construct,
                             "a converter cache shared between a conversion retort and its clones (extend/replace, the throw-away retort of a per-call recipe) hands a converter built under another recipe to a request that must be refused (unlinked field, missing coercer): " + f.message[:200], f.line))
+
+
+def unresolved_annotations_refused(repo: Repo, res: CheckResult) -> None:
+    """The types a converter is checked against come from the annotations of the user's signature. A missing annotation means
+    Any, and Any as destination accepts every source as it is. Code that evaluates annotations (get_type_hints and the like)
+    and, when a name cannot be resolved, carries on WITHOUT them therefore turns `(book: Book) -> BookDTO` into an identity
+    function instead of refusing it: the failure to resolve has to propagate."""
+    n = 0
+    for m in repo.modules.values():
+        if "/conversion/" not in m.rel:
+            continue
+        for tr in [t for t in ast.walk(m.tree) if isinstance(t, ast.Try)]:
+            calls = [c for st in tr.body for c in ast.walk(st) if isinstance(c, ast.Call)
+                     and norm(c.func).split(".")[-1] in ("get_all_type_hints", "get_type_hints", "get_annotations")]
+            if not calls:
+                continue
+            n += 1
+            fn = m.enclosing_function(tr)
+            q = m.qualname(fn) if fn is not None else "<module>"
+            res.evaluated(f"annotations:{m.rel}:{q}", True)
+            for h in tr.handlers:
+                if any(isinstance(x, ast.Raise) for st in h.body for x in ast.walk(st)):
+                    continue
+                res.add(Finding("C14", "SOUND.unresolved-annotation-becomes-any", m.rel, q, f"except {norm(h.type) if h.type else ''}: {norm(h.body[0])[:60]}",
+                                f"`{norm(calls[0])[:60]}` failing is answered with `{norm(h.body[0])[:60]}`: the annotations are dropped, every "
+                                "parameter and the result become Any, and a destination of type Any takes the source object as it is -- "
+                                "an ill-typed stub is accepted as an identity function instead of being refused", h.lineno))
+    res.count("SOUND.annotation-evaluations-guarded", n, 0)
